@@ -35,6 +35,7 @@ type Churn struct {
 	BuyIn           bool
 	Leave           bool
 	SitOut          bool    // sometimes reserve without joining
+	SitOutOften     bool    // a third of the buy-ins hold their seat without sitting in, and sit in hands later
 	OverlapOpen     float64 // probability per hand of a re-buy / add-on issued from another goroutine 0..3 ms after the last settlement signal, so that it overlaps the engine opening the hand
 	MidTopup        bool
 	MidJoin         bool
@@ -89,7 +90,7 @@ type Play struct {
 	EndedShort bool
 	PolicyName string
 	DeckName   string
-	HandTopups map[string]int64 // accepted top-ups while the current hand runs
+	HandTopups map[string]int64       // accepted top-ups while the current hand runs
 	ovCollect  func(opened *pt.Table) // pending outcome of a top-up that overlaps the open (see Churn.OverlapOpen); opened = the opened snapshot, if seen
 	midOps     int
 }
@@ -302,6 +303,9 @@ func (p *Play) betweenOps(phase string) {
 		}
 		if ch.SitOut && len(satOut) > 0 {
 			kinds = append(kinds, "sitin")
+			if ch.SitOutOften {
+				kinds = append(kinds, "sitin")
+			}
 		}
 		// add-ons go to players who still have chips: PlayerRedeemChips does not tell the seat manager that a
 		// busted player has chips again (only a re-buy through PlayerReserve or the next continue does), and a
@@ -420,7 +424,7 @@ func (p *Play) betweenOps(phase string) {
 			if ch.RandomSeat && r.Intn(3) == 0 {
 				seat = -1
 			}
-			p.BuyIn(phase, seat, p.chipsAmount(), ch.SitOut && r.Intn(5) == 0)
+			p.BuyIn(phase, seat, p.chipsAmount(), ch.SitOut && (r.Intn(5) == 0 || ch.SitOutOften && r.Intn(3) == 0))
 		case "leave":
 			// keep the table openable: never drop below two seated-in players with chips
 			id := all[r.Intn(len(all))]
